@@ -42,4 +42,15 @@ class TypeContext(dict[KeyT, ValueT], tp.Generic[ValueT]):
             return val
 
         ref = refs.forwardref(key)
-        return self[ref]
+        if ref in self:
+            return self[ref]
+        # The reference we hold may have been written in a module which merely
+        #   imports the type: it names another module than the type's own.
+        for held in self:
+            if (
+                isinstance(held, refs.ForwardRef)
+                and held.__forward_evaluated__
+                and held.__forward_value__ is key
+            ):
+                return self[held]
+        raise KeyError(ref)
